@@ -32,6 +32,16 @@ CHECKS = {
         'classes, lt never raises, trichotomy, gt==swapped lt, lt transitivity and sort validity checked on every pair/triple. Exploration.',
         'NaN excluded; tuples restricted to one comparable primitive kind per case (the stated quantifier); hash law only where pg.hash is defined.',
         'DESIGN.md section 3 C06'),
+    'C10': (
+        'PBT with reference models (key lists, Python sets, reference tree walk) + exhaustive small key alphabet',
+        'Three generated case kinds: key sequences over hostile keys (dots, brackets, digits-only strings, negative ints, unicode) '
+        'checked for parse/format round trip with key types and for +, parent, -, is_relative_to and ordering against Python lists; '
+        'nested values with hostile dict keys checked for utils.traverse / pg.traverse / pg.query visiting every node once with a path '
+        'that looks the node up, flatten/canonicalize inverse and rebind-by-function hitting exactly the selected nodes; KeyPathSet '
+        'op histories (add/remove/union/intersection/difference/update/rebase/...) against Python sets incl. aliasing probes. '
+        'All key sequences of length <=3 over a 10-symbol alphabet are enumerated for parse/format in every run. Exploration.',
+        'String keys non-empty with nested brackets (the quantifier); ordering laws asserted only where int and str keys are not compared at one position (documented str() compare).',
+        'DESIGN.md section 3 C10'),
 }
 
 NOT_BUILT = 'check not built yet in this round (planned; see DESIGN.md section 3)'
